@@ -121,6 +121,9 @@ type c17Spec struct {
 	// scenario starts (fresh, negative: it is brought online); 25 s later its mysqld restarts (offline again, status now
 	// older than the server): it must stay offline
 	Restart int `json:"replica_restarting_without_a_daemon"`
+	// PartialA: replica vla-a is offline (lag far above the threshold) and every SHOW REPLICA STATUS the manager sends to it
+	// fails while its pings succeed; vla-b lags above the enable threshold; with a cap of 50 % vla-b must stay online
+	PartialA bool `json:"state_collection_of_an_offline_replica_fails_half_way"`
 }
 
 var c17Hosts = []string{"vla-m", "vla-a", "vla-b", "vla-c", "sas-a", "sas-b", "myt-a"}
@@ -140,8 +143,14 @@ func c17Gen(seed int64, idx int) c17Spec {
 		rp := c17Rep{Lag: lags[r.Intn(len(lags))], Offline: r.Intn(3) == 0, Broken: []string{"ok", "ok", "ok", "stopped", "permanent"}[r.Intn(5)], Stale: r.Intn(6) == 0, Resetup: r.Intn(8) == 0}
 		sp.Reps = append(sp.Reps, rp)
 	}
+	if idx%4 == 1 {
+		sp.PartialA, sp.Pct, sp.MasterRO = true, 50, false
+		sp.Reps[0] = c17Rep{Lag: fp(500), Offline: true, Broken: "ok"}
+		sp.Reps[1] = c17Rep{Lag: fp(500), Offline: false, Broken: "ok"}
+		sp.Reps[2] = c17Rep{Lag: fp(5), Offline: false, Broken: "ok"}
+	}
 	sp.Restart = -1
-	if idx%3 == 0 {
+	if idx%3 == 0 && !sp.PartialA {
 		sp.Restart = r.Intn(len(sp.Reps))
 		sp.Reps[sp.Restart] = c17Rep{Lag: fp(5), Offline: true, Broken: "ok"}
 	}
@@ -207,6 +216,17 @@ func c17Sim(u *Unit) {
 				b, _ := json.Marshal(map[string]any{"UpdateTime": t, "Status": rp.Resetup})
 				s.ZK.Put("setup", NS+"/resetup_status/"+h, string(b))
 			}
+		}
+		if sp.PartialA {
+			w.Lock()
+			w.Fault = func(c *world.StmtCtx) world.FaultAction {
+				if c.Class == "replica_status" && c.Host == hosts[1] && c.Caller != "mysync_"+hosts[1] {
+					sc.Cover("collector-query-failed-on-offline-replica")
+					return world.FaultAction{Kind: "fail", Errno: 3024}
+				}
+				return world.FaultAction{}
+			}
+			w.Unlock()
 		}
 		statusAt := map[string]time.Time{} // statuses written by the scenario for hosts without a daemon
 		if sp.Restart >= 0 {
